@@ -49,14 +49,66 @@ func errorReturns(c *Ctx, f *ssa.Function, idx int) []Site {
 	return out
 }
 
+// GErrFailed: the path takes the branch on which the error result of one of the
+// calls is non-nil (the audited origin of an error return).
+func GErrFailed(desc string, f *ssa.Function, ss []Site) Guard {
+	edges := map[Edge]bool{}
+	for _, s := range ss {
+		call, ok := s.Instr.(*ssa.Call)
+		if !ok {
+			continue
+		}
+		isErr := func(v ssa.Value) bool {
+			if v == ssa.Value(call) {
+				return true
+			}
+			ex, ok := v.(*ssa.Extract)
+			return ok && ex.Tuple == ssa.Value(call) && ex.Index == call.Type().(*types.Tuple).Len()-1
+		}
+		for e := range EdgesWhere(f, Cmp(isErr, token.NEQ, Nil())) {
+			edges[e] = true
+		}
+	}
+	return Guard{Desc: desc + " failed", Steps: []Step{{Edges: edges}}, Sites: len(edges)}
+}
+
+// returnsCallOf: the idx-th result of ret is directly the (error) result of one of the calls.
+func returnsCallOf(ret *ssa.Return, idx int, ss []Site) bool {
+	v := retVal(ret, idx)
+	for _, s := range ss {
+		if call, ok := s.Instr.(*ssa.Call); ok {
+			if v == ssa.Value(call) {
+				return true
+			}
+			if ex, ok := v.(*ssa.Extract); ok && ex.Tuple == ssa.Value(call) {
+				return true
+			}
+		}
+	}
+	return false
+}
+
 // RejectSet: every error return of f lies behind one of the audited reject
 // conditions. An error return that does not is reported UNDECIDED, not
 // violated: whether a new reject can fire on a genuine input is a value-level
 // question, but it must not pass unnoticed (completeness clauses).
 func (c *Ctx) RejectSet(name string, f *ssa.Function, idx int, min int, guards ...Guard) {
+	c.RejectSetDirect(name, f, idx, min, nil, guards...)
+}
+
+// RejectSetDirect additionally accepts a return that hands on the error result of one of `direct` unchanged.
+func (c *Ctx) RejectSetDirect(name string, f *ssa.Function, idx int, min int, direct []Site, guards ...Guard) {
 	c.Funcs[f] = true
-	errs := errorReturns(c, f, idx)
-	c.Expect(min, len(errs), "error returns of "+fnName(f))
+	var errs []Site
+	all := errorReturns(c, f, idx)
+	c.Expect(min, len(all), "error returns of "+fnName(f))
+	for _, r := range all {
+		if returnsCallOf(r.Instr.(*ssa.Return), idx, direct) {
+			c.OK(name+"/"+fnName(f)+"/reject", r.Pos(), "hands on the error of an audited call unchanged")
+			continue
+		}
+		errs = append(errs, r)
+	}
 	var present []Guard
 	var gd string
 	for _, g := range guards {
@@ -718,5 +770,157 @@ func init() {
 			}
 		}
 		c.Expect(9, n, "batch mutators of the three backends")
+	})
+}
+
+func init() {
+	extendProp("C19", "A block writer opened by the index writer/deleter works on the very descriptor object that sits in descList (the list finish() encodes): the descriptor handed to newBlockWriter is an element loaded from a descriptor list, or a fresh descriptor that is also placed in the list — never a detached copy.", nil, func(c *Ctx) {
+		c.Rule("SAMEVAL/C19.shareddesc")
+		pd := "triedb/pathdb"
+		n := 0
+		for _, f := range c.AllFuncs(pd) {
+			for _, s := range c.Calls(f, pd+".newBlockWriter") {
+				n++
+				c.Funcs[f] = true
+				arg := s.Instr.(*ssa.Call).Call.Args[1]
+				name := "desc/" + fnName(f)
+				ok, why := false, ""
+				switch x := arg.(type) {
+				case *ssa.UnOp:
+					if _, isElem := x.X.(*ssa.IndexAddr); isElem && x.Op == token.MUL {
+						ok, why = true, "element of the descriptor list"
+					}
+				case *ssa.Call:
+					if calleeName(&x.Call) == pd+".newIndexBlockDesc" {
+						// fresh: must also be placed in a descriptor list
+						for _, r := range *x.Referrers() {
+							switch y := r.(type) {
+							case *ssa.Store:
+								if _, isElem := y.Addr.(*ssa.IndexAddr); isElem && y.Val == ssa.Value(x) {
+									ok, why = true, "fresh descriptor also stored in the descriptor list"
+								}
+							}
+						}
+					}
+				}
+				if ok {
+					c.OK(name, s.Pos(), why)
+				} else {
+					c.Bad(name, s.Pos(), "the block writer is opened on a descriptor that is not the object held in descList (a copy or another value): the writer's updates of max/entries/bitmap are lost when finish() encodes descList, so the stored metadata disagrees with the block data")
+				}
+			}
+		}
+		c.Expect(6, n, "newBlockWriter call sites")
+	})
+}
+
+// afterEdge: on every path from the edge e to one of exits, one of Q executes.
+// Returns the offending exit or nil.
+func afterEdge(e Edge, Q, exits map[ssa.Instruction]bool) ssa.Instruction {
+	succ := e.From.Succs[e.Succ]
+	if len(succ.Instrs) == 0 {
+		return nil
+	}
+	first := succ.Instrs[0]
+	if Q[first] {
+		return nil
+	}
+	if exits[first] {
+		return first
+	}
+	return ReachesBefore(first, Q, nil, exits)
+}
+
+func init() {
+	extendProp("C21", "In dereference, whenever the reference count is found to be zero the node is uncached: every path from the `parents == 0` outcome to a return deletes the node from the dirty set (and the deletion site recurses into the children first).", nil, func(c *Ctx) {
+		c.Rule("PAIR/C21.collect")
+		h := "triedb/hashdb"
+		dr := c.Fn(h, "(*Database).dereference")
+		if dr == nil {
+			return
+		}
+		c.Funcs[dr] = true
+		isParents := func(v ssa.Value) bool {
+			u, ok := v.(*ssa.UnOp)
+			if !ok {
+				return false
+			}
+			fa, ok := u.X.(*ssa.FieldAddr)
+			return ok && fieldAddrName(fa) == h+".cachedNode.parents"
+		}
+		zero := EdgesWhere(dr, Cmp(isParents, token.EQL, ConstInt(0)))
+		c.Expect(1, len(zero), "`parents == 0` outcomes in dereference")
+		dels := sitesToSet(c.MapWrites(dr, h+".Database.dirties", true))
+		exits := sitesToSet(c.Returns(dr))
+		for e := range zero {
+			// only dedicated edges (the successor is entered through this edge alone)
+			succ := e.From.Succs[e.Succ]
+			if len(succ.Preds) != 1 {
+				c.Undecided("zero-means-uncached/"+fnName(dr), e.From.Instrs[len(e.From.Instrs)-1].Pos(), "the `parents == 0` branch merges with other paths before acting; cannot attribute the deletion")
+				continue
+			}
+			if bad := afterEdge(e, dels, exits); bad != nil {
+				c.Bad("zero-means-uncached/"+fnName(dr), succ.Instrs[0].Pos(), "a node whose reference count is zero can leave dereference without being deleted from db.dirties (exit at "+c.pos(bad.Pos())+"): it stays cached after every root that reached it is gone, and the reported sizes keep counting it")
+			} else {
+				c.OK("zero-means-uncached/"+fnName(dr), succ.Instrs[0].Pos(), "every path from parents == 0 to a return deletes the node from db.dirties")
+			}
+		}
+	})
+}
+
+func init() {
+	extendProp("C26", "A contract creation warms its destination address before the collision check: the ErrContractAddressCollision return of (*EVM).create lies behind AddAddressToAccessList(address) (or the pre-EIP-2929 branch), and the warm-up precedes the snapshot.", nil, func(c *Ctx) {
+		c.Rule("ORDER/C26.createwarm")
+		vmp := "core/vm"
+		f := c.Fn(vmp, "(*EVM).create")
+		if f == nil {
+			return
+		}
+		var coll []Site
+		for _, r := range c.Returns(f) {
+			ret := r.Instr.(*ssa.Return)
+			if Global(vmp + ".ErrContractAddressCollision")(retVal(ret, len(ret.Results)-1)) {
+				coll = append(coll, r)
+			}
+		}
+		c.Expect(1, len(coll), "collision return of create")
+		warm := c.CallsWhere(f, "(core/vm.StateDB).AddAddressToAccessList", func(cc *ssaCall) bool { return Param("address")(cc.Args[0]) })
+		isRule := func(v ssa.Value) bool {
+			u, ok := v.(*ssa.UnOp)
+			if !ok {
+				return false
+			}
+			fa, ok := u.X.(*ssa.FieldAddr)
+			return ok && fieldAddrName(fa) == "params.Rules.IsEIP2929"
+		}
+		pre := GCond("!IsEIP2929", f, False(isRule))
+		c.Dom("warm-before-collision", f, coll, "address collision reported", GSites("AddAddressToAccessList(address)", warm), pre)
+		c.Dom("warm-before-snapshot", f, c.Calls(f, "(core/vm.StateDB).Snapshot"), "snapshot", GSites("AddAddressToAccessList(address)", warm), pre)
+	})
+}
+
+func init() {
+	extendProp("C23", "LevelDB's direct DeleteRange makes progress when it gives up on a large range: ErrTooManyKeys is returned only after the deletions collected so far were written (error tested), so a caller's retry loop converges as it does on the other backends; its other error returns come from the audited sources only.", nil, func(c *Ctx) {
+		c.Rule("ORDER/C23.rangeprogress")
+		lp := "ethdb/leveldb"
+		f := c.Fn(lp, "(*Database).DeleteRange")
+		if f == nil {
+			return
+		}
+		var many []Site
+		for _, r := range c.Returns(f) {
+			if Global("ethdb.ErrTooManyKeys")(retVal(r.Instr.(*ssa.Return), 0)) {
+				many = append(many, r)
+			}
+		}
+		c.Expect(1, len(many), "ErrTooManyKeys return of leveldb Database.DeleteRange")
+		writes := c.Calls(f, "(ethdb.Batch).Write")
+		c.Dom("written-before-giving-up", f, many, "ErrTooManyKeys returned", GErrChecked("batch.Write()", writes))
+		dels := c.Calls(f, "(ethdb.Batch).Delete|(ethdb.KeyValueWriter).Delete")
+		c.RejectSetDirect("sources", f, 0, 4, cat(writes, dels),
+			GErrFailed("batch.Write()", f, writes),
+			GErrFailed("batch.Delete(key)", f, dels),
+			GCond("count > 10000 (after the partial write)", f, Cmp(Any(), token.GTR, func(v ssa.Value) bool { return constIs(v, 10000) })),
+			GCond("it.Error() != nil", f, Cmp(CallRes("(ethdb.Iterator).Error"), token.NEQ, Nil())))
 	})
 }
